@@ -35,7 +35,9 @@ impl SingleSubRaiser<'_, '_> {
         out.push(make_bookend(None));
         for instr in script {
             label_gen.emit_labels_for_instr(&mut out, instr);
-            self.raise_instr(emitter, &instr, |stmt| {
+            // (the instruction handed to the callback is the one the statement comes from: when a merged
+            //  instruction cannot be raised and is expanded again, that is one of its constituents)
+            self.raise_instr(emitter, &instr, |instr, stmt| {
                 out.push(self.make_stmt(instr.difficulty_mask, instr.offset_comment.clone(), stmt))
             });
         }
@@ -48,7 +50,7 @@ impl SingleSubRaiser<'_, '_> {
         &self,
         emitter: &impl Emitter,
         instr: &RaiseInstr,
-        mut emit_stmt: impl FnMut(ast::StmtKind),
+        mut emit_stmt: impl FnMut(&RaiseInstr, ast::StmtKind),
     ) {
         // &mut dyn FnMut so it can be passed recursively
         self._raise_instr(emitter, instr, &mut emit_stmt)
@@ -58,9 +60,9 @@ impl SingleSubRaiser<'_, '_> {
         &self,
         emitter: &impl Emitter,
         instr: &RaiseInstr,
-        emit_stmt: &mut dyn FnMut(ast::StmtKind),
+        emit_stmt: &mut dyn FnMut(&RaiseInstr, ast::StmtKind),
     ) {
-        match self.try_raise_intrinsic(instr, emit_stmt) {
+        match self.try_raise_intrinsic(instr, &mut |stmt| emit_stmt(instr, stmt)) {
             Ok(()) => {},
             Err(CannotRaiseIntrinsic) => match &instr.fallback_expansion {
                 Some(fallback_instrs) => {
